@@ -40,6 +40,12 @@ pub fn j_cow(c: &std::borrow::Cow<'_, str>, must_borrow: bool) -> Value {
     }
     j_bytes(c.as_bytes())
 }
+pub fn j_cowb(c: &std::borrow::Cow<'_, [u8]>) -> Value {
+    if !c.is_empty() {
+        match c { std::borrow::Cow::Borrowed(s) => note_borrow(s, true), std::borrow::Cow::Owned(_) => { let (_, hi) = INPUT.with(|c| c.get()); if hi != 0 { BORROW_OK.with(|c| c.set(false)) } } }
+    }
+    j_bytes(c)
+}
 pub fn j_none() -> Value { json!({"some": false, "n": 0, "b": [], "sub": []}) }
 
 pub fn err_class(e: &minicbor::decode::Error) -> &'static str {
